@@ -555,8 +555,10 @@ func (b *RefinementBuilder) NewValue() (ret Value) {
 			}
 		} else if rfn, ok := b.wip.(*refinementCollection); ok {
 			// If both of the bounds are equal then we know the length is
-			// the same number as the bounds.
-			if rfn.minLen == rfn.maxLen {
+			// the same number as the bounds. An upper bound of math.MaxInt
+			// means that no upper bound is known, so it never describes a
+			// collection that we could construct.
+			if rfn.minLen == rfn.maxLen && rfn.maxLen != math.MaxInt {
 				knownLen := rfn.minLen
 				ty := b.orig.Type()
 				if knownLen == 0 {
